@@ -530,6 +530,8 @@ def catalogue(n=3, include_rect=True):
         "CatRows": ["Cat", {"dim": -2}, D(2, n), D(n)], "CatCols": ["Cat", {"dim": -1}, D(n, 2), D(n)],
         "Interp": ["Interp", {"mode": "general"}, P], "InterpSym": ["Interp", {"mode": "sym", "m": n + 1}, P],
         "InterpId": ["Interp", {"mode": "identity"}, P], "InterpDup": ["Interp", {"mode": "dup"}, D(n)],
+        # one interpolation point per row with weights != 1 (a weighted selection): the degenerate width of the interpolation stencil
+        "InterpK1": ["Interp", {"mode": "general", "k": 1}, P], "InterpSymK1": ["Interp", {"mode": "sym", "m": n + 1, "k": 1}, P],
         "InterpZeros": ["Interp", {"mode": "zeros"}, D(n)],
         "Masked": ["Masked", {"same": True}, D(n + 1, kind="psd")], "MaskedRect": ["Masked", {"same": False, "rdrop": 0, "cdrop": 1}, D(n + 1)],
         "Perm": ["Perm", {"n": n}], "TransposePerm": ["TransposePerm", {"m": 2}],
